@@ -59,7 +59,7 @@ func callIntrinsic(fr *frame, fn *ssa.Function, args []value) (value, bool) {
 	if x.spec > 0 {
 		switch name {
 		case "zzvInt", "zzvIntIn", "zzvBool", "zzvChoice", "zzvFloat", "zzvFloatIn", "zzvString", "zzvByteString", "zzvPrintable",
-			"zzvAssume", "zzvKnown", "zzvKnownEnd", "zzvFreeze", "zzvUnfreeze", "zzvFloatMag", "zzvFloatRel", "zzvTokenDecoder", "zzvFill", "zzvAssertSame", "zzvBodyChildren":
+			"zzvAssume", "zzvKnown", "zzvKnownEnd", "zzvFreeze", "zzvUnfreeze", "zzvFloatMag", "zzvFloatRel", "zzvTokenDecoder", "zzvFill", "zzvAssertSame", "zzvAssertDisjoint", "zzvBodyChildren":
 			panic(specAbort{"intrinsic " + name + " in a speculative arm"})
 		}
 	}
@@ -206,6 +206,9 @@ func callIntrinsic(fr *frame, fn *ssa.Function, args []value) (value, bool) {
 		return x.mkSym(types.Bool, tb.Le(tb.Abs(d), x.term(args[2]))), true
 	case "zzvFill":
 		x.fill(args[0])
+		return nil, true
+	case "zzvAssertDisjoint":
+		x.assertDisjointIntrinsic(args[0], args[1], x.constStr(args[2], "label"))
 		return nil, true
 	case "zzvAssertSame":
 		x.assertSameIntrinsic(args[0], args[1], x.constStr(args[2], "label"))
